@@ -130,11 +130,23 @@ def _add_value(kind: int, value: int) -> bool:
     name, args = cs[0]
     sc = scalars(args)
     if kind == 4:
-        return name == "_add" and value not in [x for x in sc[3:] if isinstance(x, int) and x == value and value > 16]
+        return name == "_add" and len(args) == 5 and args[0] is sk.registers and args[1] == sk.seed and args[2] == sk.p and args[3] == sk.m and args[4] == b"ab"
     ok = sc[-1] == _expect_add(kind, sk, b"ab", value) and sc[-2] == b"ab"
     if kind in (1, 2):
         ok = ok and sk.rand_ptr == 1001 and sc[-3] == 0
-    return ok
+    # the complete documented argument list: the sketch's own arrays and parameters, in order
+    if kind == 0:
+        want = [sk.cms, sk.n_added_records, sk.buckets, sk.width, sk.depth, sk.uint_maxval]
+    elif kind in (1, 2):
+        want = [sk.cms, sk.n_added_records, sk.buckets, sk.width, sk.depth, sk.uint_maxval, sk.num_reserved, sk.base, sk.rand_nums]
+    else:
+        want = [sk.lhh, sk.lhh_count, sk.key_lens, sk.n_added_records, sk.width, sk.depth, sk.max_key_len, sk.uint_maxval]
+    for x, w in zip(args, want):
+        if hasattr(w, "shape") and hasattr(w, "data"):
+            ok = ok and x is w
+        else:
+            ok = ok and x == w
+    return ok and len(args) == len(want) + (3 if kind in (1, 2) else 2)
 
 
 def check_add_value_linear(value: int) -> bool:
